@@ -260,6 +260,14 @@ func c02DeployTimeout(sc c02Scenario) string {
 	return "60s"
 }
 
+// stuckClientSignature is what the core logs every 15 s once the vendored mesos-go scheduler client
+// (httpcli/httpsched/state.go) has lost its subscription but still believes to be connected: a regular
+// call that was in flight when the subscription ended puts the "connected" phase back after the
+// disconnection was recorded (anyCall returns connectedPhase unconditionally), every later SUBSCRIBE is
+// refused locally with this error, and the core never hears from Mesos again.
+const stuckClientSignature = "already subscribed, cannot re-issue a SUBSCRIBE call"
+const stuckClientExplanation = "'subscription terminated: already subscribed, cannot re-issue a SUBSCRIBE call' every 15 s — the scheduler client believes it is connected although its event stream is gone, no SUBSCRIBE ever reaches the master, and whatever waits for a status update (here the acknowledgement of a KILL) waits for ever"
+
 func runC02() {
 	c := vlib.Start("C02")
 	defer c.Finish()
@@ -274,7 +282,8 @@ func runC02() {
 }
 
 type c02Obs struct {
-	Goroutines string `json:"blocked_goroutines,omitempty"`
+	Goroutines string      `json:"blocked_goroutines,omitempty"`
+	CoreLog    string      `json:"core_log_tail,omitempty"`
 	Scenario   c02Scenario `json:"scenario"`
 	Index      int         `json:"index"`
 	Steps      []string    `json:"steps"`
@@ -417,6 +426,11 @@ func c02Run(c *vlib.Ctx, idx int, sc c02Scenario) {
 
 	fail := func(rule, what string) {
 		k := cls
+		if rule == "HANG" && strings.Contains(obs.CoreLog, stuckClientSignature) {
+			// canonical: the request hangs because the core can never re-subscribe (see stuckClientSignature)
+			k = "scheduler-client-stuck-already-subscribed"
+			what += "; the core's log shows the reason: " + stuckClientExplanation
+		}
 		if rule == "SUCCESS-EXPECTED" && sc.Transition == "DEPLOY" {
 			// canonical family: creation fails although only non-critical tasks did not become active
 			set := map[string]bool{}
@@ -468,6 +482,7 @@ func c02Run(c *vlib.Ctx, idx int, sc c02Scenario) {
 		if s.CoreAlive() {
 			waitQuiet(s, 2*time.Second, 5*time.Second)
 			obs.Goroutines = s.DumpGoroutines()
+			obs.CoreLog = s.LogTail(6000)
 			fail("HANG", fmt.Sprintf("NewEnvironment did not return within %s with the master quiescent (nothing pending that could complete it)", apiTimeout))
 		}
 		return
@@ -594,6 +609,7 @@ func c02Run(c *vlib.Ctx, idx int, sc c02Scenario) {
 			if s.CoreAlive() {
 				waitQuiet(s, 2*time.Second, 5*time.Second)
 				obs.Goroutines = s.DumpGoroutines()
+				obs.CoreLog = s.LogTail(6000)
 				fail("HANG", fmt.Sprintf("%s did not return within %s with the master quiescent", sc.Transition, apiTimeout))
 			}
 			return
